@@ -58,29 +58,37 @@ def _cargo_env():
     return e
 
 
-def build_harness(profile="release", hooks=True):
+def build_harness(profile="release", hooks=True, native=False):
     """Rebuild the harness (and therefore fips204) from /repo's working tree.  hooks=False builds the API-level
-    part of the harness against the library WITHOUT the verif-hooks feature (separate target directory)."""
+    part of the harness against the library WITHOUT the verif-hooks feature (separate target directory).
+    native=True builds for the host CPU (-C target-cpu=native): code paths selected by cfg(target_feature = ...)
+    exist only in such builds (separate target directory)."""
     os.makedirs(WORK, exist_ok=True)
     lock = open(os.path.join(WORK, ".cargo.lock"), "w")
     fcntl.flock(lock, fcntl.LOCK_EX)
+    tdir = "target-native" if native else ("target" if hooks else "target-nohooks")
     try:
         if not os.path.exists(os.path.join(HARNESS, "Cargo.lock")):
             shutil.copy(os.path.join(REPO, "Cargo.lock"), os.path.join(HARNESS, "Cargo.lock"))
         cmd = ["cargo", "build", "--offline", "--profile", profile]
         if not hooks:
-            cmd += ["--no-default-features", "--target-dir", "target-nohooks"]
+            cmd += ["--no-default-features"]
+        if tdir != "target":
+            cmd += ["--target-dir", tdir]
+        env = _cargo_env()
+        if native:
+            env["RUSTFLAGS"] = "-C target-cpu=native"
         t0 = time.time()
-        p = subprocess.run(cmd, cwd=HARNESS, env=_cargo_env(), stdout=subprocess.PIPE, stderr=subprocess.STDOUT, text=True)
+        p = subprocess.run(cmd, cwd=HARNESS, env=env, stdout=subprocess.PIPE, stderr=subprocess.STDOUT, text=True)
         if p.returncode != 0:
             log(p.stdout[-4000:])
             raise ToolError("harness build failed (profile %s): the tree under /repo does not compile with hooks on" % profile)
-        log("harness build (%s%s): %.1fs" % (profile, "" if hooks else ", library without verif-hooks", time.time() - t0))
+        log("harness build (%s%s%s): %.1fs" % (profile, "" if hooks else ", library without verif-hooks", ", target-cpu=native" if native else "", time.time() - t0))
     finally:
         fcntl.flock(lock, fcntl.LOCK_UN)
         lock.close()
     d = "release" if profile == "release" else profile
-    return os.path.join(HARNESS, "target" if hooks else "target-nohooks", d)
+    return os.path.join(HARNESS, tdir, d)
 
 
 def drive(bindir, sub, timeout=3600, **kw):
